@@ -183,6 +183,76 @@ Example C13_example_provided_eof :
   = [Item LRemaining; Item LRemaining; Item LRemaining; Item LRemaining; Item LRemaining; Item LRemaining].
 Proof. vm_compute. reflexivity. Qed.
 
+(* ---- end-of-stream frames that do not end ----
+   `eoftr decode_eof b tr` (Proofs/FramedFacts.v): tr is an initial part — of any length — of what repeated
+   decode_eof calls on buffer b yield: `Item a` for a frame, `Done` where it says None (the sequence stops there).
+   C13_chunk_independent assumes that decode_eof eventually says None; without that assumption the frames of every
+   script START with the frames of the whole stream followed by the codec's end-of-stream frames, as far as the
+   polls reach (and if those include the None, that is all).  In particular the codec is asked at the 0-byte read
+   also when the buffer is empty. *)
+Theorem C13_chunk_independent_prefix :
+  forall (A : Type) (decode decode_eof : list Z -> option A * list Z),
+  prefix_stable decode ->
+  forall (sc : list rd) (its : list A) (r : list Z) (tr2 : list (res A)) (fuel : nat),
+  decodes decode (stream sc) its r ->
+  eoftr decode_eof r tr2 ->
+  (length sc + length its + length tr2 + io_errors sc <= fuel)%nat ->
+  exists rest : list (res A),
+    frames (run_read decode decode_eof fuel 0 sc rinit) = map Item its ++ tr2 ++ rest /\
+    (In Done tr2 -> rest = []).
+Proof. exact read_chunk_independent_prefix. Qed.
+
+Theorem C13_errors_prefix :
+  forall (A : Type) (decode decode_eof : list Z -> option A * list Z),
+  prefix_stable decode ->
+  forall (sc : list rd) (tr : list (res A)) (fuel : nat),
+  gref decode decode_eof [] sc tr ->
+  (length sc + length tr <= fuel)%nat ->
+  exists rest : list (res A),
+    results (run_read decode decode_eof fuel 0 sc rinit) = tr ++ rest /\ (In Done tr -> rest = []).
+Proof. exact read_errors_prefix. Qed.
+
+(* the reference sequences that reach None are exactly those of C13_errors *)
+Theorem C13_gref_complete :
+  forall (A : Type) (decode decode_eof : list Z -> option A * list Z) buf sc (tr : list (res A)),
+  (ref decode decode_eof buf sc tr <-> gref decode decode_eof buf sc tr /\ In Done tr).
+Proof.
+  intros A decode decode_eof buf sc tr. split.
+  - intros H. split; [exact (ref_gref _ _ _ _ _ _ H)|exact (ref_done _ _ _ _ _ _ H)].
+  - intros [H1 H2]. exact (gref_complete _ _ _ _ _ _ H1 H2).
+Qed.
+
+(* the test codec with a trailer (an end marker produced by decode_eof on an EMPTY buffer, again and again): for
+   every script and every k the frames are those of the whole stream, `Truncated` if it stops inside a frame, then
+   the end marker k times — and the stream never yields None *)
+Theorem C13_lps :
+  forall (sc : list rd) (k : nat),
+  exists (its : list lpitem) (r : list Z),
+    decodes lp_decode (stream sc) its r /\
+    (forall fuel : nat,
+       (length sc + length its + 1 + k + io_errors sc <= fuel)%nat ->
+       exists rest : list (res lpitem),
+         frames (run_read lp_decode lps_decode_eof fuel 0 sc rinit)
+         = map Item its ++ lps_tail r ++ repeat (Item LEnd) k ++ rest).
+Proof. exact lps_chunk_independent. Qed.
+
+(* a stream that ends exactly on a frame boundary, and the empty stream: the trailer is delivered on every poll *)
+Example C13_example_trailer :
+  map fst (run_read lp_decode lps_decode_eof 5 0 [RChunk [1; 97]; RPending; REof] rinit)
+  = [Item (LOk [97]); Pending; Item LEnd; Item LEnd; Item LEnd]
+  /\ map fst (run_read lp_decode lps_decode_eof 3 0 [] rinit) = [Item LEnd; Item LEnd; Item LEnd]
+  /\ map fst (run_read lp_decode lps_decode_eof 4 0 [RChunk [2; 97]] rinit) = [Item LTrunc; Item LEnd; Item LEnd; Item LEnd].
+Proof. vm_compute. auto. Qed.
+
+Example C13_example_eoftr :
+  eoftr lps_decode_eof [] [Item LEnd; Item LEnd] /\ eoftr lp_decode_eof [2; 97] [Item LTrunc; Done].
+Proof.
+  split.
+  - exact (lps_eoftr_empty 2).
+  - eapply eo_item; [vm_compute; reflexivity|]. eapply eo_done. vm_compute. reflexivity.
+Qed.
+
+
 Print Assumptions C13_chunk_independent.
 Print Assumptions C13_errors.
 Print Assumptions C13_errors_ref_exists.
@@ -197,3 +267,7 @@ Print Assumptions C13_lp.
 Print Assumptions C13_lp_frames.
 Print Assumptions C13_bytes_not_prefix_stable.
 Print Assumptions C13_bytes.
+Print Assumptions C13_chunk_independent_prefix.
+Print Assumptions C13_errors_prefix.
+Print Assumptions C13_gref_complete.
+Print Assumptions C13_lps.
